@@ -41,6 +41,13 @@ def stack_strategy(draw, tier):
     dims = [draw(st.integers(1, 6)) for _ in range(3)]
     c = draw(st.sampled_from([None, 1, 3]))
     dtype = draw(st.sampled_from(DT))
+    big = draw(st.integers(0, 250 if tier == "quick" else 120)) == 0
+    if big:
+        # a stack of a few million voxels (what a rasterised neuron or a confocal tile is): sizes that are no multiple of
+        # any round block depth
+        dims = draw(st.sampled_from([[128, 128, 130], [64, 256, 133], [130, 128, 129], [200, 200, 53], [33, 1024, 65]]))
+        c = draw(st.sampled_from([None, 1]))
+        dtype = draw(st.sampled_from(["float32", "uint8", "uint16"]))
     fmt = draw(st.sampled_from(["tiff", "tiff", "tif-stack", "nrrd", "npy"]))
     save = draw(st.sampled_from([None, None, "uint8", "uint16", "float32"])) if fmt in ("tiff", "tif-stack") else None
     stored = save or dtype
@@ -51,7 +58,7 @@ def stack_strategy(draw, tier):
     if stored == "uint16" and read == "uint8":
         read = "uint16"
     return {"dims": dims, "c": c, "dtype": dtype, "fmt": fmt, "save": save, "read": read,
-            "pattern": draw(st.sampled_from(["index", "index", "random"])), "seed": draw(st.integers(0, 2 ** 31 - 1)),
+            "pattern": "index" if big else draw(st.sampled_from(["index", "index", "random"])), "seed": draw(st.integers(0, 2 ** 31 - 1)),
             "compression": draw(st.booleans())}
 
 
@@ -105,6 +112,10 @@ def run_stack(case, ctx):
             "channels:" + str(case["c"]), "size-1-axis" if 1 in dims else "no-size-1-axis",
             f"path:{np.dtype(stored).kind}->{np.dtype(read).kind}")
     ctx.nontrivial((len(set(dims)) == 3 or 1 in dims) and conv)
+    if dims[0] * dims[1] * dims[2] > 2 ** 21:
+        ctx.cls("stack-of-more-than-2Mi-voxels")
+        if save:
+            ctx.cls("large-stack-saved-with-a-dtype")
     path = os.path.join(ctx.tmpdir, "img." + {"tiff": "tif", "tif-stack": "tiff", "nrrd": "nrrd", "npy": "npy"}[fmt])
     if os.path.exists(path):
         os.remove(path)
@@ -161,7 +172,12 @@ def raster_strategy(draw, tier):
         r = [draw(st.integers(5, 14)) / 16.0 for _ in range(n)]
         res = draw(st.sampled_from([2, 2, 1, [1, 1, 2], [0.5, 1, 2]]))
         save = draw(st.integers(0, 1)) == 0
+    if n > 2 and draw(st.booleans()):
+        # any numbering that keeps the root at 0: children may be listed before their parents
+        parents, _ = gen_tree.permute_keep_root(parents, list(draw(st.permutations(list(range(1, n))))))
     case = {"parents": parents, "xyz": xyz, "r": r, "res": res, "save": save,
+            # the same rasteriser object has already rasterised this very tree object, which was then edited in place
+            "raster_before": draw(st.sampled_from([None, None, None, "columns", "handles"])),
             # saving with the progress display on (the default of transform_and_save) or off
             "verbose": draw(st.booleans())}
     if draw(st.integers(0, 3)) == 0:
@@ -205,6 +221,28 @@ def run_raster(case, ctx):
     tree = Tree(n, id=np.arange(n, dtype=np.int32), pid=np.array(parents, dtype=np.int32),
                 type=np.array([1] + [3] * (n - 1), dtype=np.int32), x=xyz[:, 0], y=xyz[:, 1], z=xyz[:, 2], r=r)
     res = case["res"]
+    shared_rasteriser = None
+    if any(p > i for i, p in enumerate(parents)):
+        ctx.cls("numbering-with-a-child-before-its-parent")
+    if case.get("raster_before"):
+        tree = Tree(n, id=np.arange(n, dtype=np.int32), pid=np.array(parents, dtype=np.int32),
+                    type=np.array([1] + [3] * (n - 1), dtype=np.int32), x=xyz[:, 0] * np.float32(0.5) + np.float32(1.0),
+                    y=xyz[:, 1] * np.float32(0.5), z=xyz[:, 2] * np.float32(0.5) - np.float32(2.0), r=r * np.float32(0.5) + np.float32(0.25))
+        shared_rasteriser = ToImageStack(res)
+        try:
+            shared_rasteriser(tree)
+        except (KeyboardInterrupt, SystemExit):
+            raise
+        except BaseException:  # noqa - the earlier pose may be too thin for a voxel centre; only the second raster is judged
+            pass
+        for k, c in enumerate("xyz"):
+            if case["raster_before"] == "columns":
+                tree.get_ndata(c)[:] = xyz[:, k]
+            else:
+                for i in range(n):
+                    setattr(tree.node(i), c, xyz[i, k])
+        tree.get_ndata("r")[:] = r
+        ctx.cls("rasterised-before-then-edited-in-place")
     res3 = np.array([res] * 3 if not isinstance(res, list) else res, dtype=np.float64)
     aniso = isinstance(res, list)
     taper = any(p != -1 and r[i] != r[p] for i, p in enumerate(parents))
@@ -252,9 +290,9 @@ def run_raster(case, ctx):
                   lambda: f"shape {tuple(stack.shape)} although no voxel centre lies inside {lo.tolist()}..{hi.tolist()} at {res3.tolist()}")
         return
     if ranges is None:
-        stack = ctx.lib("ToImageStack", lambda: ToImageStack(res)(tree))
+        stack = ctx.lib("ToImageStack", lambda: (shared_rasteriser or ToImageStack(res))(tree))
     else:
-        rasteriser = ToImageStack(res)
+        rasteriser = shared_rasteriser or ToImageStack(res)
         stack = ctx.lib("ToImageStack.transform[ranges]", lambda: np.stack(list(rasteriser.transform(tree, verbose=False, ranges=ranges)), axis=0))
         ctx.check(np.array_equal(np.asarray(ranges[0], dtype=np.float64), lo) and np.array_equal(np.asarray(ranges[1], dtype=np.float64), hi),
                   "raster/region-given-by-the-caller-is-left-unchanged", lambda: f"{ranges} vs {lo.tolist()}..{hi.tolist()}")
@@ -298,7 +336,7 @@ def run_raster(case, ctx):
             ctx.cls("saved-with-the-progress-display-on")
         with contextlib.redirect_stdout(_io.StringIO()), contextlib.redirect_stderr(_io.StringIO()):
             if ranges is None:
-                ctx.lib("transform_and_save", lambda: ToImageStack(res).transform_and_save(path, tree, verbose=verbose))
+                ctx.lib("transform_and_save", lambda: (shared_rasteriser or ToImageStack(res)).transform_and_save(path, tree, verbose=verbose))
             else:
                 ctx.lib("transform_and_save[ranges]", lambda: ToImageStack(res).transform_and_save(path, tree, verbose=verbose, ranges=ranges))
         back = ctx.lib("read_imgs", lambda: read_imgs(path, dtype=np.uint8).get_full())
@@ -310,9 +348,11 @@ def run_raster(case, ctx):
 SUBCHECKS = [
     Sub("stack", stack_strategy, run_stack, quick=6000, thorough=40000, shards_quick=4,
         required={"fmt:tiff": 200, "fmt:tif-stack": 100, "fmt:nrrd": 100, "fmt:npy": 100, "size-1-axis": 200, "converted": 400,
-                  "channels:3": 150, "channels:1": 150, "channels:None": 150, "path:f->u": 80, "path:u->f": 80}),
+                  "channels:3": 150, "channels:1": 150, "channels:None": 150, "path:f->u": 80, "path:u->f": 80,
+                  "stack-of-more-than-2Mi-voxels": 8, "large-stack-saved-with-a-dtype": 2}),
     Sub("raster", raster_strategy, run_raster, quick=1500, thorough=12000, shards_quick=4,
         required={"res:aniso": 60, "taper": 100, "saved": 30, "res:0.5": 15, "res:2": 15, "raster:single-slice": 20,
                   "region-given-by-the-caller": 150, "region-as:float32": 40, "resolution-not-dividing-the-box": 300,
-                  "saved-with-the-progress-display-on": 60}),
+                  "saved-with-the-progress-display-on": 60,
+                  "numbering-with-a-child-before-its-parent": 200, "rasterised-before-then-edited-in-place": 300}),
 ]
